@@ -390,6 +390,10 @@ func (p *program) parseArgs(args []string) error {
 	if p.concurrency < 1 {
 		return fmt.Errorf("-concurrency must be a positive number, got %d", p.concurrency)
 	}
+	if p.exitCode < 0 || p.exitCode > 255 {
+		// The operating system keeps the low eight bits: 256 would report a run with issues as a success.
+		return fmt.Errorf("-exitCode must be in the range 0..255, got %d", p.exitCode)
+	}
 
 	p.packages = p.flagSet.Args()
 	p.filters.enable = strings.Split(*enable, ",")
